@@ -1,13 +1,23 @@
 """C12: instance transforms compose like the geometric operations they name.
 Model Geom/Transform.v (ring level + float level), spec Geom/TransformSpec.v, theorems Properties/C12.v,
 correspondence against layout21raw::Transform::*, Point::transform and Layout::flatten."""
-import json, itertools, struct
+import json, itertools, struct, os, re
 from decimal import Decimal, getcontext
 from fractions import Fraction
 from vlib import *
 
 HDR = ("From Coq Require Import ZArith List Bool.\nImport ListNotations.\n"
        "From L21 Require Import Geom.Transform Geom.TransformSpec Geom.TransformCheck.\nOpen Scope Z_scope.\n")
+
+def tree_has_exact_right_angles():
+    """Does layout21raw/src/geom.rs of the repository in use compute the sine and cosine of right angles exactly
+    (`fn sin_cos_degrees`, the repair proposed for the drift found at depth 62)? Then the regenerated table
+    Gen/LibmGen.v must be exact and Geom/TransformFloatExact.v (`table_exact_now`) is part of the proof leg."""
+    try:
+        src = open(os.path.join(REPO, "layout21raw", "src", "geom.rs"), encoding="utf8").read()
+    except OSError:
+        return False
+    return re.search(r"\bfn\s+sin_cos_degrees\b", src) is not None
 
 ORIENT8 = [(r, a) for r in (False, True) for a in (0, 90, 180, 270)]
 TABLE_ANGLES = [0, 90, -90, 180, -180, 270, -270, 360]
@@ -88,6 +98,27 @@ def gen_chain_cases(chk):
         d = 1024 if k == 0 else rng.randint(21, 128 if quick else 1024)
         pl = [big_off(rng, 2**28) + (rng.random() < 0.5, rng.choice(TABLE_ANGLES + [None])) for _ in range(d)]
         add("deep_21_1024_loc_2p28", pl, [GRID[7], EXTREME_PTS[0]] if quick else GRID[::40] + EXTREME_PTS[:3])
+    # ANY depth (the property: "flattening a hierarchy of any depth ... no rounding drift"): the family of the drift
+    # found at depth 62 -- 61..200 placements with |loc| = 2^40 (the largest judged magnitude), rotations by the
+    # table angles, judged like every other chain (float image == exact image). With libm's sin/cos in geom.rs
+    # the pure 360-degree chain drifts from depth 62 on; with exact right angles (sin_cos_degrees) nothing does.
+    B40 = 2**40
+    add("drift_any_depth", [(0, B40, False, 360)] * 61, [(0, 0)])
+    add("drift_any_depth", [(0, B40, False, 360)] * 62, [(0, 0)])
+    add("drift_any_depth", [(0, B40, False, 360)] * (128 if quick else 200), [(0, 0)] if quick else [(0, 0), (3, -4), (2**31, -2**31)])
+    add("drift_any_depth", [(B40, -B40, True, -270)] * 100, [(0, 0), (1, 1)])
+    for _ in range(4 if quick else 120):
+        d = rng.randint(62, 120 if quick else 200)
+        fam = rng.randrange(3)
+        if fam == 0:      # one orientation repeated
+            o = (rng.random() < 0.3, rng.choice([360, 360, 90, 180, 270, -90, -180, -270]))
+            loc = (rng.choice([-B40, 0, B40]), rng.choice([-B40, B40]))
+            pl = [loc + o] * d
+        elif fam == 1:    # locations +-2^40, angles from the table
+            pl = [(rng.choice([-B40, 0, B40]), rng.choice([-B40, 0, B40]), rng.random() < 0.3, rng.choice(TABLE_ANGLES)) for _ in range(d)]
+        else:             # mostly 360 with a few quarter turns
+            pl = [(0, B40, False, 360 if rng.random() < 0.9 else rng.choice([90, 180, 270])) for _ in range(d)]
+        add("drift_any_depth", pl, [(0, 0), (rng.randint(-9, 9), rng.randint(-9, 9))])
     # beyond 2^53: outside the property's domain (doubles cannot hold the coordinates); model comparison only
     for (lx, ly) in OFFSETS_BEYOND:
         for (r, a) in ORIENT8[::3]:
@@ -345,6 +376,19 @@ def shrink(chk, viol):
     """One round: for the smallest failing chain cases try every single placement and every single point."""
     viol = sorted(viol, key=lambda cr: case_weight(cr[0]))
     best = viol[0]
+    drift = [cr for cr in viol if cr[0].get("kind") == "drift_any_depth"]
+    if drift and len(drift) == len(viol):
+        # the smallest failing chain of the family: every prefix of the shortest failing chain, the origin only
+        c0 = drift[0][0]
+        cands = [dict(c0, pl=c0["pl"][:k], pts=[[0, 0]], kind="drift_any_depth") for k in range(1, len(c0["pl"]) + 1)]
+        try:
+            rs = evaluate(chk, cands, "c12shrink")
+            bad = [(c, r) for c, r in zip(cands, rs) if r[0] == 2]
+            if bad:
+                return min(bad, key=lambda cr: len(cr[0]["pl"]))
+        except Exception as ex:
+            log("shrink (drift prefixes) failed:", ex)
+        return best
     cands = []
     for c, _ in viol[:6]:
         if c["op"] != "chain":
@@ -383,9 +427,25 @@ def nontrivial_key(c):
 def run(chk, replay=None):
     import time as _t
     _t0 = _t.time()
-    chk.proof_leg(["Geom/TransformCheck.vo"], "Properties/C12.v", ["Geom/Transform_proofs.v", "Geom/TransformFloat_proofs.v"], "Properties.C12")
+    exact_tree = tree_has_exact_right_angles()
+    proof_files = ["Geom/Transform_proofs.v", "Geom/TransformFloat_proofs.v"] + (["Geom/TransformFloatExact.v"] if exact_tree else [])
+    chk.proof_leg(["Geom/TransformCheck.vo"], "Properties/C12.v", proof_files, "Properties.C12")
+    chk.cov["right_angle_variant"] = ("geom.rs has sin_cos_degrees: exact table required, Geom/TransformFloatExact.v (table_exact_now) in the proof leg, any-depth theorems unconditional"
+                                      if exact_tree else
+                                      "geom.rs calls to_radians().sin()/.cos(): libm table, bounded-depth theorems; the any-depth theorems keep table_exactb as hypothesis")
+    if exact_tree:
+        ok_x, out_x = coq_make(["Geom/TransformFloatExact.vo"])
+        chk.write_log("coq_exact_build.log", out_x)
+        if not ok_x:
+            chk.broken.append("proof build failed: Geom/TransformFloatExact.v (geom.rs has sin_cos_degrees, but the table regenerated from Transform::rotate is not exactly 0/1/-1): " + last_error(out_x))
+            chk.proof_ok = False
+            chk.cov["discharged"] = 0
+        elif "Axioms:" in out_x:
+            chk.broken.append("static gate: Geom/TransformFloatExact.v depends on axioms")
+            chk.proof_ok = False
+            chk.cov["discharged"] = 0
     chk.assumptions += [
-        "libm sin/cos are not modelled: the ring-level theorems hold for EVERY pair (c, s); the float-level theorem is about the eight bit patterns in coq/Gen/LibmGen.v, regenerated from the implementation on every run",
+        "libm sin/cos are not modelled: the ring-level theorems hold for EVERY pair (c, s); the float-level theorems are about the eight (sin, cos) bit patterns in coq/Gen/LibmGen.v, read off the repository's own Transform::rotate / from_instance on every run",
         "float `*`, `+` round to nearest even with no excess precision and no fused multiply-add (Rust on x86-64/aarch64); the sign of zero is not modelled (it cannot reach an integer coordinate); infinities and NaN are outside the model",
         "hierarchies are unfolded into trees: Ptr sharing is invisible to flatten; cyclic hierarchies (non-terminating in the implementation) are outside the model; RwLock poisoning is not modelled",
     ]
@@ -403,7 +463,7 @@ def run(chk, replay=None):
             cs, d = g(chk)
             cases += cs; dist.update(d)
     chk.cov["input_distribution"] = dist
-    chk.cov["rule"] = ("placement chains of depth 1-4 (and some 5-8, 9-20 with locations up to 2^40, 21-1024 with locations up to 2^28) over the eight right-angle orientations and their other spellings (-90, 360, no angle) x offsets "
+    chk.cov["rule"] = ("placement chains of depth 1-4 (and some 5-8, 9-20 with locations up to 2^40, 21-1024 with locations up to 2^28, the drift family: 61-200 placements at 2^40) over the eight right-angle orientations and their other spellings (-90, 360, no angle) x offsets "
                        "(small, negative, up to 2^31, 2^40, beyond 2^53) x every point of the 9x9 grid [-4,4]^2 plus extreme points; hierarchies of depth 1-4 built through the public API "
                        "(shared cells, rect/polygon/path elements, nets/layers/purposes); general angles against a decimal reference. "
                        "Non-trivial: some placement is not the identity / some cell has an instance; distinct by full input")
@@ -433,7 +493,16 @@ def run(chk, replay=None):
         for c, _ in viol:
             bykind[c["kind"]] = bykind.get(c["kind"], 0) + 1
         c, r = shrink(chk, viol) if not replay else sorted(viol, key=lambda cr: case_weight(cr[0]))[0]
-        if c["op"] == "chain":
+        if c["op"] == "chain" and c.get("kind") == "drift_any_depth":
+            pl = c["pl"]
+            pls = ("%d x %s" % (len(pl), pl[0])) if all(q == pl[0] for q in pl) else ("%d placements %s ..." % (len(pl), pl[:3]))
+            what = ("rounding drift at right angles (Transform::cascade of Transform::from_instance matrices, then Point::transform): "
+                    "chain of %s (outermost first; [x, y, reflect, angle]) sends point(s) %s to %s; the exact image (reflect, quarter turns, translate, "
+                    "innermost first) is %s -- sin/cos of the right angles are libm's (e.g. sin 360 = -2.4e-16), the residue grows with the depth "
+                    "(%d failing cases of %d; by kind %s; smallest failing prefix found by the shrinker)"
+                    % (pls, c["pts"][:3], r[1].get("p", r[1])[:3] if isinstance(r[1], dict) and "p" in r[1] else r[1],
+                       r[1].get("ps", "?")[:3] if isinstance(r[1], dict) and "ps" in r[1] else "?", len(viol), len(cases), bykind))
+        elif c["op"] == "chain":
             what = ("Transform::from_instance / cascade / Point::transform: placement chain %s on point(s) %s: from_instance-based image %s, "
                     "composition of translate.rotate.reflect gives %s%s (%d failing cases of %d; by kind %s)"
                     % (c["pl"], c["pts"][:3], r[1].get("p", r[1])[:3] if isinstance(r[1], dict) and "p" in r[1] else r[1],
